@@ -34,10 +34,21 @@ def linEquiv (G : Graph n) (fuel : Nat) (sameGraph : Bool) (D1 D2 : Divisor n) :
 /-! ### enumeration of effective divisors -/
 
 /-- `itertools.combinations_with_replacement(vs, k)` -/
+def cwrStep {α : Type} (v : α) (r : Nat → List (List α)) : Nat → List (List α)
+  | 0 => [[]]
+  | k + 1 => (cwrStep v r k).map (v :: ·) ++ r (k + 1)
+
 def cwr {α : Type} : List α → Nat → List (List α)
-  | _, 0 => [[]]
-  | [], _ + 1 => []
-  | v :: vs, k + 1 => (cwr (v :: vs) k).map (v :: ·) ++ cwr vs (k + 1)
+  | [] => fun k => match k with
+    | 0 => [[]]
+    | _ + 1 => []
+  | v :: vs => cwrStep v (cwr vs)
+
+theorem cwr_zero {α : Type} (vs : List α) : cwr vs 0 = [[]] := by
+  cases vs <;> rfl
+theorem cwr_nil_succ {α : Type} (k : Nat) : cwr ([] : List α) (k + 1) = [] := rfl
+theorem cwr_cons_succ {α : Type} (v : α) (vs : List α) (k : Nat) :
+    cwr (v :: vs) (k + 1) = (cwr (v :: vs) k).map (v :: ·) ++ cwr vs (k + 1) := rfl
 
 /-- chip-count vector of a multiset of vertices -/
 def countVec (c : List (Fin n)) : Fin n → Int := fun v => (c.count v : Int)
